@@ -269,7 +269,7 @@ func init() {
 
 func init() {
 	checks["C18"] = func(ld *Loaded, r *Run) {
-		r.relyOnRunProtocol(ld)
+		r.relyOnRunProtocol(ld, false)
 		r.verifyHelpers(ld, func(c *Contract) bool { return ownsProp(c, "C18") || c.Fn.Pkg.Pkg.Path() == modPath })
 		// the real CPU executes the instructions the BIOS consists of exactly as
 		// the reference Step does (the arms of those opcodes, all components)
